@@ -116,6 +116,15 @@ def run(chk):
     chk.sample({"trace_line": lines[0]})
     chk.sample({"trace_line": lines[-1]})
 
+    # S3b: the repository's own tests as drivers (calls recorded from outside by harness/record_plugin.py)
+    rl, summ = common.repo_test_traces(chk, ["confidence"], select=["stix2/test/v21/test_confidence.py"])
+    cl = rl["confidence"]
+    for r in common.validate_trace(chk, "Trace_Confidence", "Trace_Confidence", [{k: v for k, v in x.items() if k != "test"} for x in cl], "S3b_repo_tests") if cl else []:
+        ln = cl[r[0] - 1]
+        chk.violation({"entry": ln["fn"], "case": "%s arg=%r" % (r[2], ln.get("n", ln.get("s")))}, {"line": ln, "clause": r[2], "recorded_from_repository_test": ln.get("test")}, "S3b")
+    chk.stages["S3b_repo_tests"] = dict(chk.stages.get("S3b_repo_tests", {}), recorded_calls=len(cl), tests_passed_under_recording=summ["tests_passed_under_recording"],
+                                        recorder_errors=summ["recorder_errors"])
+
     # S4 binding self-test: corrupt one logged result, one expectation
     bad = [dict(x) for x in lines[:400]]
     idx = next(i for i, x in enumerate(bad) if x["ok"] and x["rk"] == "label")
